@@ -8,6 +8,7 @@ import (
 	"log"
 	"mime"
 	"net/http"
+	"slices"
 	"strings"
 
 	"github.com/issue9/mux/v9/header"
@@ -202,8 +203,9 @@ func (hs *Hosts) emptyHandlerFunc() {}
 //
 //	/path.html
 func NewPathVersion(param string, version ...string) Matcher {
+	version = slices.Clone(version) // 不修改也不持有调用方的切片
 	for i, v := range version {
-		if v == "" {
+		if strings.Trim(v, "/") == "" { // "/" 与空值一样，会匹配所有的路径。
 			panic("参数 v 不能为空值")
 		}
 
